@@ -4,7 +4,7 @@
 checks that the tools the checks need are present."""
 import os, shutil, subprocess, sys, time
 sys.path.insert(0, os.path.dirname(os.path.dirname(os.path.abspath(__file__))))
-from vlib import scratch, replay, gen_range, gen_ae, gen_serve, gen_precond
+from vlib import scratch, replay, gen_range, gen_ae, gen_serve, gen_precond, gen_chunker
 
 
 def gen_all(hdir):
@@ -12,6 +12,7 @@ def gen_all(hdir):
     gen_ae.generate("quick", os.path.join(hdir, "ae_gen.rs"), os.path.join(hdir, "ae_meta.json"))
     gen_serve.generate("quick", os.path.join(hdir, "serve_gen.rs"), os.path.join(hdir, "serve_meta.json"))
     gen_precond.generate("quick", os.path.join(hdir, "precond_gen.rs"), os.path.join(hdir, "precond_meta.json"))
+    gen_chunker.generate("quick", os.path.join(hdir, "chunker_gen.rs"), os.path.join(hdir, "chunker_meta.json"))
 
 
 def warm_kani(features):
